@@ -24,6 +24,10 @@ LPlain == NodeOfJ(T.plain)
 Model == CASE T.pres = "key" -> BuildUnderKey(T.key, LDocs)
            [] T.pres = "key_unsafe" -> BuildUnderUnsafeKey(T.key, LDocs)
            [] T.pres = "include_list_unsafe" -> Build("include_list", LDocs)
+           \* a file named more than once is the same document again (the harness writes ONE file per distinct document)
+           [] T.pres = "include_list_same" -> Build("include_list", LDocs)
+           [] T.pres = "includes_same" -> Build("includes", LDocs)
+           [] T.pres = "nested_same" -> Build("nested", LDocs)
            [] OTHER -> Build(T.pres, LDocs)
 ModelPlain == FoldDocs(LDocs)
 
